@@ -13,6 +13,8 @@ fn main() {
     let mut seed: u64 = std::env::var("VERIF_SEED").ok().and_then(|s| s.trim().parse::<i64>().ok()).map(|v| v as u64).unwrap_or(0);
     let mut replay = None;
     let mut list = false;
+    let mut slen = false;
+    let mut dump: Option<String> = None;
     let mut i = 1;
     while i < args.len() {
         match args[i].as_str() {
@@ -21,6 +23,8 @@ fn main() {
             "--seed" => { i += 1; seed = args.get(i).and_then(|s| s.parse::<i64>().ok()).map(|v| v as u64).unwrap_or_else(|| usage()); }
             "--replay" => { i += 1; replay = args.get(i).cloned(); }
             "--list" => list = true,
+            "--stream-len" => slen = true,
+            "--dump-corpus" => { i += 1; dump = args.get(i).cloned(); }
             _ => usage(),
         }
         i += 1;
@@ -34,6 +38,32 @@ fn main() {
         eprintln!("unknown property {}", id);
         std::process::exit(2);
     };
+    if slen {
+        println!("{}", prop.stream_len(tier).min(2048));
+        return;
+    }
+    if let Some(dir) = dump {
+        // seed corpus for the libFuzzer stage: regression streams, enumerated prefixes and random tails
+        let _ = std::fs::create_dir_all(&dir);
+        let len = prop.stream_len(tier).min(2048);
+        let mut n = 0;
+        let mut put = |s: &[u32]| {
+            let _ = std::fs::write(format!("{}/seed-{:04}", dir, n), ohsl_verif::stream::stream_to_bytes(s));
+            n += 1;
+        };
+        if let Ok(rd) = std::fs::read_dir(format!("{}/regress/{}", ohsl_verif::verif_dir(), prop.id())) {
+            for e in rd.flatten() {
+                if let Some(st) = engine::read_replay_stream(e.path().to_str().unwrap()) { put(&st); }
+            }
+        }
+        let pre = prop.enum_prefixes(tier);
+        let mut tail = ohsl_verif::stream::Tail(seed ^ 0x5EED);
+        let step = (pre.len() / 48).max(1);
+        for p in pre.iter().step_by(step) { let s = tail.fill(p, len); put(&s); }
+        for _ in 0..64 { let s = tail.fill(&[], len); put(&s); }
+        println!("{} corpus files written to {}", n, dir);
+        return;
+    }
     ohsl_verif::silence_stdout();
     engine::install_panic_hook();
     ohsl_verif::calib::init();
